@@ -90,8 +90,28 @@ def _len(x):
         _raise('TypeError', str(e))
 
 
+CONCRETE_ARGEXT = [False]       # vine mode: extrema / ranges over symbolic values are resolved by case split
+
+
+def concretize_int(x, limit=64):
+    """a symbolic integer as a python int, by case split over the values the path condition allows (0..limit)"""
+    if not isinstance(x, Sym):
+        return x
+    n = ir._num(x.t)
+    if n is not None:
+        return int(n)
+    for v in range(limit + 1):
+        if State.ctx.branch(ir.eq(x.t, v)):
+            return v
+    raise Unsupported('integer not bounded by %d on this path' % limit)
+
+
 def _range(*a):
     from .interp import GenRange
+    if CONCRETE_ARGEXT[0] and any(isinstance(x, Sym) and ir._num(x.t) is None for x in a):
+        # only integers the path condition bounds are enumerated; an unbounded one needs a loop invariant
+        a = [concretize_int(x) if not (isinstance(x, Sym) and ir._num(x.t) is None and
+                                         State.ctx.feasible(ir.gt(x.t, 64))) else x for x in a]
     if any(isinstance(x, Sym) and ir._num(x.t) is None for x in a):
         if len(a) == 1:
             return GenRange(a[0])
@@ -714,6 +734,14 @@ def np_array(x, dtype=None, copy=True):
             return ConcArr([[_num(v) for v in r] for r in rows])
         if all(isinstance(v, Lane) for v in x):
             return RowsArr(list(x))
+        if all(isinstance(v, GenList) for v in x):
+            return RowsArr([v.lane.copy() for v in x])
+        if all(isinstance(v, ConcArr) for v in x):
+            return ConcArr([_deep(v.data) for v in x])
+        if x[0] is None and len(x) == 1:
+            return Sym(ir.const(None))
+    if x is None:
+        return NoneArray()
     if isinstance(x, Sym):
         return x
     if isinstance(x, (int, float)):
@@ -749,6 +777,18 @@ class RowsArr(object):
         if name == 'shape':
             return (len(self.rows), self.rows[0].n)
         raise Unsupported('RowsArr.' + name)
+
+
+class NoneArray(object):
+    """np.array(None): a 0-d object array (what Edge.from_dict stores for an edge without pseudo-observations)"""
+    is_ndarray = True
+
+    def sym_getattr(self, interp, name):
+        if name == 'tolist':
+            return lambda: None
+        if name == 'shape':
+            return ()
+        raise Unsupported('np.array(None).' + name)
 
 
 class Arr3Row(object):
@@ -1230,6 +1270,10 @@ def np_random_uniform(low=0.0, high=1.0, size=None):
     t = ir.uf('rng.uniform.elem', [g, to_term(low), to_term(high), to_term(n), values.IDX])
     lane = Lane(t, n)
     State.ctx.assume(ir.and_(ir.le(to_term(low), t), ir.lt(t, to_term(high))))
+    if isinstance(n, int) and n <= 16:
+        for k in range(n):                          # the same fact for each element of a short array
+            tk = ir.substitute(t, {values.IDX: ir.const(k)})
+            State.ctx.assume(ir.and_(ir.le(to_term(low), tk), ir.lt(tk, to_term(high))))
     return lane
 
 
@@ -1239,6 +1283,8 @@ def np_random_randint(low, high=None, size=None):
     if size is None:
         x = Sym(ir.uf('rng.randint', [g, to_term(lo), to_term(hi)], 'I'))
         State.ctx.assume(ir.and_(ir.le(to_term(lo), x.t), ir.lt(x.t, to_term(hi))))
+        if CONCRETE_ARGEXT[0] and isinstance(hi, int):
+            return concretize_int(x, limit=hi)
         return x
     t = ir.uf('rng.randint.elem', [g, to_term(lo), to_term(hi), to_term(size), values.IDX], 'I')
     State.ctx.assume(ir.and_(ir.le(to_term(lo), t), ir.lt(t, to_term(hi))))
@@ -2344,13 +2390,20 @@ def _np_empty(shape, dtype=None):
     USED['np.empty'] = 'np.empty(shape): a fresh array whose cells are UNDEFINED until written (reading one is a safety violation)'
     if isinstance(shape, int):
         shape = [shape]
+    # an uninitialised cell holds an ARBITRARY value: a fresh variable named undef!k. A result depends on
+    # uninitialised memory iff such a variable reaches an observable term or a branch condition.
     if isinstance(shape, (list, tuple)) and all(isinstance(s, int) for s in shape):
         def mk(dims):
             if len(dims) == 1:
-                return [values.Undef for _ in range(dims[0])]
+                return [Sym(State.ctx.fresh('undef')) for _ in range(dims[0])]
             return [mk(dims[1:]) for _ in range(dims[0])]
         return ConcArr(mk(list(shape)))
-    raise Unsupported('np.empty with a symbolic shape')
+    if isinstance(shape, (list, tuple)) and len(shape) == 2 and isinstance(shape[1], int):
+        n = shape[0]
+        return Arr2([Lane(ir.var(State.ctx.fresh('undef').args[0] + '@i'), n) for _ in range(shape[1])], n)
+    if isinstance(shape, (list, tuple)) and len(shape) == 1:
+        return Lane(ir.var(State.ctx.fresh('undef').args[0] + '@i'), shape[0])
+    raise Unsupported('np.empty with shape %r' % (shape,))
 
 
 NP._table.update({'zeros': _np_zeros2, 'full': _np_full2, 'empty': _np_empty,
@@ -2579,3 +2632,489 @@ def _pickle_load(f, **k):
 EXTERNAL['json'] = Stub('json', {'dump': _json_dump, 'load': _json_load, 'dumps': lambda o, **k: ('json', _jsonify(o)),
                                  'loads': lambda s, **k: _jsonify(s[1])})
 EXTERNAL['pickle'] = Stub('pickle', {'dump': _pickle_dump, 'load': _pickle_load})
+
+
+# ------------------------------------------------------------------------------------------------
+# small concrete-shape arrays, second part: numpy indexing (views / copies / masks), sorting, extrema
+# (used by the vine / tree builders, whose arrays have shape (d, d) or (d, 3) with d concrete)
+# ------------------------------------------------------------------------------------------------
+
+def _ca_shape_paths(data, prefix=()):
+    if isinstance(data, list):
+        return [_ca_shape_paths(x, prefix + (i,)) for i, x in enumerate(data)]
+    return prefix
+
+
+class ConcView(ConcArr):
+    """basic-index view of a ConcArr: shares the cells of its root (writes go through, read-only flag inherited)"""
+
+    def __init__(self, root, paths):
+        self.root, self.paths = root, paths
+
+    @property
+    def data(self):
+        return _deep_map(self.paths, lambda p: _ca_cell(self.root._store(), p)) if isinstance(self.paths, list) else None
+
+    @property
+    def readonly(self):
+        return getattr(self.root, 'readonly', False)
+
+    @property
+    def owner(self):
+        return getattr(self.root, 'owner', None)
+
+
+def _deep_map_paths(d, f):
+    """like _deep_map, but leaves are tuples (paths)"""
+    return [_deep_map_paths(x, f) for x in d] if isinstance(d, list) else f(d)
+
+
+_deep_map = lambda d, f: [_deep_map(x, f) for x in d] if isinstance(d, list) else f(d)      # noqa: E731
+
+
+def _ca_cell(store, path):
+    r = store
+    for k in path:
+        r = r[k]
+    return r
+
+
+def _ca_store_of(arr):
+    return arr.root._store() if isinstance(arr, ConcView) else arr.__dict__['data']
+
+
+ConcArr._store = lambda self: self.__dict__['data']
+ConcView._store = lambda self: self.root._store()
+
+
+def _ca_own_paths(arr):
+    if isinstance(arr, ConcView):
+        return arr.paths
+    return _ca_shape_paths(arr.__dict__['data'])
+
+
+def _ca_root(arr):
+    return arr.root if isinstance(arr, ConcView) else arr
+
+
+def _ca_concrete_int(k, size):
+    """an index value as a python int; a symbolic integer is resolved by case split over 0..size-1"""
+    if isinstance(k, bool):
+        return int(k)
+    if isinstance(k, int):
+        return k
+    if isinstance(k, Sym):
+        n = ir._num(k.t)
+        if n is not None:
+            return int(n)
+        if k.t.sort in ('I', 'R'):
+            for i in range(size):
+                if State.ctx.branch(ir.eq(k.t, i)):
+                    return i
+            _raise('IndexError', 'index out of bounds')
+    if isinstance(k, float) and k == int(k):
+        _raise('IndexError', 'only integers, slices (`:`), ellipsis (`...`), numpy.newaxis (`None`) and integer or '
+               'boolean arrays are valid indices')
+    raise Unsupported('array index %r' % (k,))
+
+
+def _ca_bool(v):
+    if isinstance(v, bool):
+        return v
+    if isinstance(v, Sym) and v.t.sort == 'B':
+        if v.t is ir.TRUE:
+            return True
+        if v.t is ir.FALSE:
+            return False
+        return v
+    return None
+
+
+def _ca_selector(k, size):
+    """-> ('int', i) | ('slice', [i...]) | ('fancy', [i...]) | ('mask', [bool|Sym...])"""
+    if isinstance(k, slice):
+        return 'slice', list(range(size))[k]
+    if isinstance(k, ConcArr):
+        flat = _flat(k.data) if k.data and isinstance(k.data[0], list) else list(k.data)
+        if flat and all(_ca_bool(v) is not None for v in flat):
+            return 'mask', [_ca_bool(v) for v in flat]
+        return 'fancy', [_ca_concrete_int(v, size) for v in flat]
+    if isinstance(k, (list, tuple)):
+        flat = []
+        for v in k:
+            if isinstance(v, ConcArr):
+                flat.extend(_flat(v.data) if v.data and isinstance(v.data[0], list) else list(v.data))
+            elif isinstance(v, (list, tuple)):
+                flat.extend(v)
+            else:
+                flat.append(v)
+        if flat and all(isinstance(v, bool) for v in flat):
+            return 'mask', flat
+        return 'fancy', [_ca_concrete_int(v, size) for v in flat]
+    return 'int', _ca_concrete_int(k, size)
+
+
+def _ca_norm(i, size):
+    if i < 0:
+        i += size
+    if not 0 <= i < size:
+        _raise('IndexError', 'index %d is out of bounds for axis with size %d' % (i, size))
+    return i
+
+
+def _ca_select(paths, key):
+    """numpy indexing on a nested list of cell paths -> (selected nested paths | single path, is_view, sym_mask|None)"""
+    is2 = bool(paths) and isinstance(paths[0], list)
+    nrows = len(paths)
+    ncols = len(paths[0]) if is2 else None
+    if isinstance(key, ConcArr) and is2 and key.data and isinstance(key.data[0], list) and \
+            all(_ca_bool(v) is not None for v in _flat(key.data)):
+        # full-shape boolean mask over a 2-d array
+        flat_p = [p for row in paths for p in row]
+        flat_m = [_ca_bool(v) for v in _flat(key.data)]
+        if len(flat_p) != len(flat_m):
+            _raise('IndexError', 'boolean index did not match indexed array')
+        return _ca_apply_mask(flat_p, flat_m)
+    if not isinstance(key, tuple):
+        key = (key,)
+    if len(key) > (2 if is2 else 1):
+        _raise('IndexError', 'too many indices for array')
+    k0, s0 = _ca_selector(key[0], nrows)
+    if not is2:
+        if k0 == 'int':
+            return paths[_ca_norm(s0, nrows)], True, None
+        if k0 == 'mask':
+            if len(s0) != nrows:
+                _raise('IndexError', 'boolean index did not match indexed array')
+            return _ca_apply_mask(paths, s0)
+        return [paths[_ca_norm(i, nrows)] for i in s0], k0 == 'slice', None
+    k1, s1 = _ca_selector(key[1], ncols) if len(key) == 2 else ('slice', list(range(ncols)))
+    if k0 == 'mask' or k1 == 'mask':
+        if k0 == 'mask' and any(isinstance(b, Sym) for b in s0) or k1 == 'mask' and any(isinstance(b, Sym) for b in s1):
+            raise Unsupported('symbolic per-axis boolean mask')
+        if k0 == 'mask':
+            k0, s0 = 'fancy', [i for i, b in enumerate(s0) if b]
+        if k1 == 'mask':
+            k1, s1 = 'fancy', [i for i, b in enumerate(s1) if b]
+    if k0 == 'int' and k1 == 'int':
+        return paths[_ca_norm(s0, nrows)][_ca_norm(s1, ncols)], True, None
+    if k0 == 'int':
+        row = paths[_ca_norm(s0, nrows)]
+        return [row[_ca_norm(j, ncols)] for j in s1], k1 == 'slice', None
+    if k1 == 'int':
+        j = _ca_norm(s1, ncols)
+        return [paths[_ca_norm(i, nrows)][j] for i in s0], k0 == 'slice', None
+    if k0 == 'fancy' and k1 == 'fancy':
+        if len(s0) != len(s1):
+            raise Unsupported('broadcast of two index arrays')
+        return [paths[_ca_norm(i, nrows)][_ca_norm(j, ncols)] for i, j in zip(s0, s1)], False, None
+    return [[paths[_ca_norm(i, nrows)][_ca_norm(j, ncols)] for j in s1] for i in s0], k0 == 'slice' and k1 == 'slice', None
+
+
+def _ca_apply_mask(flat_paths, flat_mask):
+    if any(isinstance(b, Sym) for b in flat_mask):
+        return list(flat_paths), False, list(flat_mask)          # symbolic mask: only meaningful for a store
+    return [p for p, b in zip(flat_paths, flat_mask) if b], False, None
+
+
+def _ca_getitem2(self, interp, key):
+    if isinstance(key, values.GenIndex):
+        raise Unsupported('generic index into a small array')
+    sel, is_view, smask = _ca_select(_ca_own_paths(self), key)
+    if smask is not None:
+        raise Unsupported('read through a symbolic boolean mask')
+    store = _ca_store_of(self)
+    if isinstance(sel, tuple):
+        return _ca_cell(store, sel)
+    if is_view:
+        return ConcView(_ca_root(self), sel)
+    return ConcArr(_deep_map_paths(sel, lambda p: _ca_cell(store, p)))
+
+
+def _ca_setitem2(self, interp, key, v):
+    if getattr(self, 'readonly', False):
+        _raise('ValueError', 'assignment destination is read-only')
+    owner = getattr(self, 'owner', None)
+    if owner is not None:
+        State.ctx.event('mutate', owner, State.where)
+    sel, _view, smask = _ca_select(_ca_own_paths(self), key)
+    store = _ca_store_of(self)
+
+    def put(path, val):
+        r = store
+        for k in path[:-1]:
+            r = r[k]
+        r[path[-1]] = val
+    vdata = _ca_data(v) if not isinstance(v, (Sym, int, float, bool)) else None
+    if isinstance(v, Lane):
+        raise Unsupported('store of a symbolic-length array into a small array')
+    if isinstance(sel, tuple):
+        if vdata is not None:
+            if len(vdata) == 1 and not isinstance(vdata[0], list):
+                vdata = vdata[0]
+            else:
+                _raise('ValueError', 'setting an array element with a sequence.')
+            v = vdata
+        put(sel, v)
+        return
+    if smask is not None:
+        if vdata is not None:
+            raise Unsupported('array value under a symbolic mask')
+        for p, b in zip(sel, smask):
+            if b is True:
+                put(p, v)
+            elif b is not False:
+                if not State.ctx.feasible(b.t):
+                    continue
+                if not State.ctx.feasible(ir.not_(b.t)):
+                    put(p, v)
+                    continue
+                old = _ca_cell(store, p)
+                put(p, Sym(ir.ite(b.t, to_term(v), to_term(old))))
+        return
+
+    def bcast(paths, val):
+        if isinstance(paths, tuple):
+            put(paths, val)
+        elif isinstance(val, list):
+            if len(val) == len(paths):
+                for p, x in zip(paths, val):
+                    bcast(p, x)
+            elif len(val) == 1:
+                for p in paths:
+                    bcast(p, val[0])
+            elif paths and isinstance(paths[0], list) and len(val) == len(paths[0]):
+                for p in paths:
+                    bcast(p, val)
+            else:
+                _raise('ValueError', 'could not broadcast input array from shape (%d,) into shape (%d,)' % (len(val), len(paths)))
+        else:
+            for p in paths:
+                bcast(p, val)
+    bcast(sel, vdata if vdata is not None else v)
+
+
+ConcArr.sym_getitem = _ca_getitem2
+ConcArr.sym_setitem = _ca_setitem2
+
+
+def _ca_getattr2(self, interp, name):
+    if name == 'shape':
+        return self.shape
+    if name == 'ndim':
+        return len(self.shape)
+    if name == 'size':
+        n = 1
+        for s in self.shape:
+            n *= s
+        return n
+    if name == 'tolist':
+        from .interp import PyList
+
+        def tl(d):
+            return PyList([tl(x) for x in d]) if isinstance(d, list) else d
+        return lambda: tl(self.data)
+    if name == 'copy':
+        return lambda: ConcArr(_deep(self.data))
+    if name == 'T':
+        return ConcArr([list(r) for r in zip(*self.data)]) if self.data and isinstance(self.data[0], list) else self
+    if name == 'astype':
+        def astype(t, **k):
+            pt = getattr(t, 'pytype', t)
+            if pt is int:
+                return ConcArr(_deep_map(self.data, lambda x: _int(x)))
+            if pt is float:
+                return ConcArr(_deep(self.data))
+            if pt is bool:
+                return ConcArr(_deep_map(self.data, lambda x: _bool(x)))
+            raise Unsupported('astype(%r)' % (t,))
+        return astype
+    if name == 'argsort':
+        return lambda *a, **k: _ca_argsort(self)
+    if name in ('sum', 'max', 'min', 'argmax', 'argmin'):
+        f = {'sum': np_sum, 'max': lambda x, axis=None: _ca_extremum('max', x, axis), 'min': lambda x, axis=None: _ca_extremum('min', x, axis),
+             'argmax': np_argmax, 'argmin': np_argmin}[name]
+        return lambda *a, **k: f(self, *a, **k)
+    if name == 'dot':
+        return lambda other: _concarr_binop(self, interp, 'MatMult', other, False)
+    if name == 'ravel' or name == 'flatten':
+        return lambda: ConcArr(_flat(self.data) if self.data and isinstance(self.data[0], list) else list(self.data))
+    if name == 'dtype':
+        return 'float64'
+    raise Unsupported('ConcArr.' + name)
+
+
+ConcArr.sym_getattr = _ca_getattr2
+ConcArr.sym_abs = lambda self, interp: ConcArr(_deep_map(self.data, _abs))
+ConcArr.sym_unop = lambda self, interp, op: ConcArr(_deep_map(self.data, lambda x: _ca_elem('Sub', 0, x) if op == 'USub' else x))
+
+
+def _ca_compare(self, interp, name, other):
+    import ast as _ast
+    op = {'lt': _ast.Lt, 'le': _ast.LtE, 'gt': _ast.Gt, 'ge': _ast.GtE, 'eq': _ast.Eq, 'ne': _ast.NotEq}[name]()
+    b = _ca_data(other)
+
+    def cmp(x, y):
+        r = interp.compare(op, x, y)
+        return r
+
+    def rec(x, y):
+        if isinstance(x, list) and isinstance(y, list):
+            return [rec(p, q) for p, q in zip(x, y)]
+        if isinstance(x, list):
+            return [rec(p, y) for p in x]
+        return cmp(x, y)
+    if b is None and not isinstance(other, (Sym, int, float, bool)):
+        return NotImplemented
+    return ConcArr(rec(self.data, b if b is not None else other))
+
+
+ConcArr.sym_compare = _ca_compare
+
+
+def _ca_truth(self, interp):
+    flat = _flat(self.data) if self.data and isinstance(self.data[0], list) else list(self.data)
+    if len(flat) == 1:
+        return interp.truthy(flat[0])
+    _raise('ValueError', 'The truth value of an array with more than one element is ambiguous.')
+
+
+ConcArr.sym_truth = _ca_truth
+
+
+def _ca_ge_all(t, others, strict_before=()):
+    return ir.and_(*[ir.ge(t, o) for o in others])
+
+
+def _ca_argsort(arr):
+    """argsort of a 1-d small array. Concrete keys: numpy order (stable for equal keys). Symbolic keys: a case split
+    over the comparisons; equal keys may come out in either order (numpy's default sort is not stable)."""
+    items = list(arr.data)
+    if any(isinstance(x, list) for x in items):
+        raise Unsupported('argsort of a 2-d array')
+    c = State.ctx
+    order = []
+    for i, x in enumerate(items):
+        pos = len(order)
+        for j, k in enumerate(order):
+            y = items[k]
+            if isinstance(x, Sym) or isinstance(y, Sym):
+                tx, ty = to_term(x), to_term(y)
+                if tx is ty:
+                    continue
+                lt = c.branch(ir.le(tx, ty)) if c.feasible(ir.lt(tx, ty)) else False
+            else:
+                lt = x < y
+            if lt:
+                pos = j
+                break
+        order.insert(pos, i)
+    return ConcArr(order)
+
+
+def _ca_extremum(kind, a, axis=None):
+    """np.max / np.min of a 1-d small array: the value at a (concrete, case-split) extremal index"""
+    if isinstance(a, ConcArr):
+        if a.data and isinstance(a.data[0], list):
+            if axis == 1:
+                return ConcArr([_ca_extremum(kind, ConcArr(r)) for r in a.data])
+            if axis == 0:
+                return ConcArr([_ca_extremum(kind, ConcArr(list(r))) for r in zip(*a.data)])
+            a = ConcArr(_flat(a.data))
+        i = _ca_argext_concrete('arg' + kind, a)
+        return a.data[i]
+    raise Unsupported('np.%s(%r)' % (kind, a))
+
+
+def _ca_argext_concrete(kind, a):
+    """first index attaining the extremum (numpy's rule), found by case split"""
+    items = list(a.data)
+    if not items:
+        _raise('ValueError', 'attempt to get %s of an empty sequence' % kind)
+    c = State.ctx
+    if not any(isinstance(x, Sym) and ir._num(x.t) is None for x in items):
+        vals = [Fraction(ir._num(to_term(x))) for x in items]
+        best = max(vals) if kind == 'argmax' else min(vals)
+        return vals.index(best)
+    cmp_strict = ir.gt if kind == 'argmax' else ir.lt
+    cmp_weak = ir.ge if kind == 'argmax' else ir.le
+    ts = [to_term(x) for x in items]
+    for j in range(len(items) - 1):
+        cond = ir.and_(*([cmp_strict(ts[j], ts[k]) for k in range(j)] + [cmp_weak(ts[j], ts[k]) for k in range(j + 1, len(items))]))
+        if c.branch(cond):
+            return j
+    return len(items) - 1
+
+
+_old_argext = _argext
+
+
+def _argext2(kind, a):
+    if CONCRETE_ARGEXT[0] and isinstance(a, ConcArr) and not (a.data and isinstance(a.data[0], list)):
+        return _ca_argext_concrete(kind, a)
+    return _old_argext(kind, a)
+
+
+def np_argmax(a, axis=None):            # noqa: F811
+    return _argext2('argmax', a)
+
+
+def np_argmin(a, axis=None):            # noqa: F811
+    return _argext2('argmin', a)
+
+
+_old_np_sum = np_sum
+
+
+def np_sum(x, axis=None):               # noqa: F811
+    if isinstance(x, ConcArr) and axis is not None and x.data and isinstance(x.data[0], list):
+        rows = x.data if axis == 1 else [list(r) for r in zip(*x.data)]
+        return ConcArr([_old_np_sum(ConcArr(list(r))) for r in rows])
+    return _old_np_sum(x, axis)
+
+
+_old_np_max, _old_np_min = NP._table.get('max'), NP._table.get('min')
+
+
+def _np_max2(x, *a, **k):
+    if isinstance(x, ConcArr) and CONCRETE_ARGEXT[0]:
+        return _ca_extremum('max', x, k.get('axis', a[0] if a else None))
+    return _old_np_max(x, *a, **k)
+
+
+def _np_min2(x, *a, **k):
+    if isinstance(x, ConcArr) and CONCRETE_ARGEXT[0]:
+        return _ca_extremum('min', x, k.get('axis', a[0] if a else None))
+    return _old_np_min(x, *a, **k)
+
+
+def _np_append(a, b, axis=None):
+    def items(x):
+        if isinstance(x, ConcArr):
+            return _flat(x.data) if x.data and isinstance(x.data[0], list) else list(x.data)
+        if isinstance(x, (list, tuple)):
+            return list(x)
+        if isinstance(x, (Sym, int, float)):
+            return [x]
+        raise Unsupported('np.append(%r)' % (x,))
+    return ConcArr(items(a) + items(b))
+
+
+_old_np_where = NP._table['where']
+
+
+def _np_where2(c, a=None, b=None):
+    if a is None and isinstance(c, ConcArr):
+        flat = list(c.data)
+        if any(isinstance(x, list) for x in flat):
+            raise Unsupported('np.where on a 2-d mask')
+        bs = [_ca_bool(x) for x in flat]
+        if any(not isinstance(x, bool) for x in bs):
+            # symbolic mask entries: decide each by case split
+            bs = [x if isinstance(x, bool) else State.ctx.branch(x.t) for x in bs]
+        return (ConcArr([i for i, x in enumerate(bs) if x]),)
+    return _old_np_where(c, a, b)
+
+
+NP._table.update({'argmax': np_argmax, 'argmin': np_argmin, 'sum': np_sum, 'max': _np_max2, 'min': _np_min2,
+                  'amax': _np_max2, 'amin': _np_min2, 'append': _np_append, 'where': _np_where2})
